@@ -38,15 +38,32 @@ Definition small_getters : list getter :=
   ++ flat_map (fun y => flat_map (fun rcl => map (fun a : option Z * option Z => GRowTraverse y rcl (fst a) (snd a)) (pairs ozs ozs)) bools) zs
   ++ flat_map (fun y => map (fun rcl => GRowCells y rcl) bools) zs.
 
-Definition holdsb (t : tstate) (q : getter) : bool :=
-  meets (promises_copy q) (expands q) (m_get false t q) (spec_get (abs_t t) q).
+(* the code as it is against the reading it implements; against the documented reading; the candidate repair of F30 *)
+Definition holdsb (pad_model pad_spec : bool) (t : tstate) (q : getter) : bool :=
+  meets (promises_copy q) (expands q) (m_get false pad_model t q) (spec_get pad_spec (abs_t t) q).
 
-Lemma small_scope_computed : forallb (fun t => forallb (holdsb t) small_getters) small_tables = true.
+Lemma small_scope_as_stored_computed : forallb (fun t => forallb (holdsb false false t) small_getters) small_tables = true.
+Proof. vm_compute. reflexivity. Qed.
+Lemma small_scope_documented_computed :
+  forallb (fun t => forallb (fun q => is_area_get_cells q || holdsb false true t q) small_getters) small_tables = true.
+Proof. vm_compute. reflexivity. Qed.
+Lemma small_scope_padded_computed : forallb (fun t => forallb (holdsb true true t) small_getters) small_tables = true.
 Proof. vm_compute. reflexivity. Qed.
 
-Theorem small_scope : forall t q, In t small_tables -> In q small_getters -> C08_holds t q.
+Theorem small_scope_as_stored : forall t q, In t small_tables -> In q small_getters -> C08_holds_as_stored t q.
 Proof.
-  intros t q Ht Hq. pose proof small_scope_computed as H.
+  intros t q Ht Hq. pose proof small_scope_as_stored_computed as H.
+  rewrite forallb_forall in H. specialize (H t Ht). rewrite forallb_forall in H. exact (H q Hq).
+Qed.
+Theorem small_scope : forall t q, In t small_tables -> In q small_getters -> is_area_get_cells q = false -> C08_holds t q.
+Proof.
+  intros t q Ht Hq Hn. pose proof small_scope_documented_computed as H.
+  rewrite forallb_forall in H. specialize (H t Ht). rewrite forallb_forall in H. specialize (H q Hq).
+  rewrite Hn in H. exact H.
+Qed.
+Theorem small_scope_padded : forall t q, In t small_tables -> In q small_getters -> C08_holds_padded t q.
+Proof.
+  intros t q Ht Hq. pose proof small_scope_padded_computed as H.
   rewrite forallb_forall in H. specialize (H t Ht). rewrite forallb_forall in H. exact (H q Hq).
 Qed.
 Lemma small_scope_size : (length small_tables, length small_getters) = (396%nat, 2382%nat).
